@@ -204,6 +204,64 @@ static std::string stressRing(std::uint64_t items, std::size_t cap)
   return o.str();
 }
 
+// The same SPSC stress with wide items (a torn item is visible) and batch pops as large as the ring, on the
+// fixed-capacity RingBuffer and on DynamicRingBuffer: the consumer's slot reads must be complete before the tail is
+// published, the producer's slot writes before the head is.
+struct Wide
+{
+  std::uint64_t w[16];
+  Wide() { for (auto &x : w) x = 0; }
+  explicit Wide(std::uint64_t v) { for (auto &x : w) x = v; }
+  bool torn() const { for (auto x : w) if (x != w[0]) return true; return false; }
+};
+template <class RB> static std::string stressWide(RB &rb, std::uint64_t items, std::size_t cap)
+{
+  std::uint64_t lost = 0, reorder = 0, torn = 0;
+  std::atomic<bool> overfull{false};
+  std::thread prod([&]
+  {
+    std::uint64_t i = 0;
+    std::vector<Wide> batch(cap + 1);
+    while (i < items)
+    {
+      if (i % 3 == 0)
+      {
+        std::size_t n = 0;
+        for (; n < cap && i + n < items; ++n) batch[n] = Wide(i + n);
+        i += rb.tryPushBatch(batch.data(), n);
+      }
+      else { Wide x(i); if (rb.tryPush(x)) ++i; }
+      if (rb.size() > cap) overfull = true;
+    }
+  });
+  std::uint64_t expect = 0;
+  std::vector<Wide> out(cap + 1);
+  while (expect < items)
+  {
+    std::size_t n = (expect % 4 != 3) ? rb.tryPopBatch(out.data(), cap) : (rb.tryPop(out[0]) ? 1 : 0);
+    for (std::size_t k = 0; k < n; ++k)
+    {
+      if (out[k].torn()) { torn++; }
+      const std::uint64_t v = out[k].w[0];
+      if (v != expect) { if (v > expect) lost += v - expect; else reorder++; expect = v; }
+      expect++;
+    }
+  }
+  prod.join();
+  std::ostringstream o;
+  o << "X lost=" << lost << " dup=" << reorder << " order=" << (reorder == 0 && torn == 0 ? 1 : 0) << " bounded=" << (overfull.load() ? 0 : 1);
+  return o.str();
+}
+static std::string stressWideCase(const std::string &kind, std::uint64_t items, std::size_t cap)
+{
+  if (kind == "dyn") { DynamicRingBuffer<Wide> rb(cap); return stressWide(rb, items, cap); }
+  if (cap == 1) { RingBuffer<Wide, 1> rb; return stressWide(rb, items, cap); }
+  if (cap == 2) { RingBuffer<Wide, 2> rb; return stressWide(rb, items, cap); }
+  if (cap == 8) { RingBuffer<Wide, 8> rb; return stressWide(rb, items, cap); }
+  if (cap == 64) { RingBuffer<Wide, 64> rb; return stressWide(rb, items, cap); }
+  return "X bad-capacity";
+}
+
 // close() runs while a blocked caller sits between its predicate and its sleep
 static std::string lostWakeup(const std::string &kind)
 {
@@ -340,6 +398,7 @@ int main(int argc, char **argv)
       else if (p[0] == "D") r = dynCase(std::stoul(p[1]), split(p[2], ';'));
       else if (p[0] == "Q") r = queueCase(std::stoul(p[1]), split(p[2], ';'));
       else if (p[0] == "X" && p[1] == "bq") r = stressQueue(std::stoi(p[2]), std::stoi(p[3]), std::stoull(p[4]), std::stoul(p[5]));
+      else if (p[0] == "X" && (p[1] == "sring" || p[1] == "dring")) r = stressWideCase(p[1] == "dring" ? "dyn" : "static", std::stoull(p[2]), std::stoul(p[3]));
       else if (p[0] == "X" && p[1] == "ring") r = stressRing(std::stoull(p[2]), std::stoul(p[3]));
       else if (p[0] == "W") r = lostWakeup(p[1]);
       else if (p[0] == "M") r = manyWaiters(p[1], p[2], std::stoul(p[3]), std::stoi(p[4]));
